@@ -139,3 +139,23 @@ Fixpoint last_leaf (t : rt) : option str :=
 Definition ws_sep (p : pair) : bool :=
   negb (protected p) && match fst p with ACh c => is_space c | ASym _ => false end.
 Definition drop_ws (f : flat_text) : flat_text := filter (fun p => negb (ws_sep p)) f.
+
+(* ------------------------------------------------------------------------------ *)
+(* the normal form the constructor produces: parts are non-empty, never a Text, themselves
+   normal, and two neighbours never have the same type information (except Symbols) *)
+Definition not_text (t : rt) : bool := match t with RText _ => false | _ => true end.
+Definition adj_ok (p q : rt) : bool :=
+  negb (tinfo_eqb (typeinfo p) (typeinfo q)) || match typeinfo p with TINone => true | _ => false end.
+Fixpoint adjacent_ok (ps : list rt) : bool :=
+  match ps with
+  | p :: r => match r with q :: _ => adj_ok p q | [] => true end && adjacent_ok r
+  | [] => true
+  end.
+Fixpoint normal (t : rt) : bool :=
+  match t with
+  | RStr _ | RSym _ => true
+  | RText ps | RTag _ ps | RHRef _ _ ps | RProt ps =>
+    forallb (fun p => nonempty p && not_text p && normal p) ps && adjacent_ok ps
+  end.
+Definition normal_parts (ps : list rt) : bool :=
+  forallb (fun p => nonempty p && not_text p && normal p) ps && adjacent_ok ps.
